@@ -115,7 +115,14 @@ def cases(draw):
     # distractor rules and a shuffled declaration order
     for _ in range(draw(st.integers(0, 2))):
         vs = tuple(draw(st.lists(st.sampled_from(var_names), max_size=2, unique=True)))
-        rules.append({'sort': rule_sort, 'lhs': term(2, vs) if vs else term(2), 'rhs': term(2, vs)})
+        lhs_, rhs_ = (term(2, vs) if vs else term(2)), term(2, vs)
+        if use_inj and draw(st.booleans()):
+            # sort-parametric rule (never applied in the trace): sort variables are variables too - equal ones must map to the
+            # same metavariable, distinct ones to distinct metavariables
+            sa, sb = draw(st.sampled_from([('?S1', '?S2'), ('?S2', '?S1'), ('?S1', '?S1'), ('?S1', sorts[0])]))
+            lhs_ = ['app', 'inj', ['?S1', '?S2'], [lhs_]]
+            rhs_ = ['app', 'inj', [sa, sb], [rhs_]]
+        rules.append({'sort': rule_sort, 'lhs': lhs_, 'rhs': rhs_})
     order = list(draw(st.permutations(range(len(rules)))))
     bad = None
     if trace and draw(st.integers(0, 2)) == 0:
@@ -141,10 +148,23 @@ def tvars(t, acc=None):
     return acc
 
 
+def _ksort(s):
+    return K.SortVar(s[1:]) if s.startswith('?') else K.SortApp(s)
+
+
+def sortvars(t, acc=None):
+    acc = [] if acc is None else acc
+    if t[0] == 'app':
+        for s_ in t[2]:
+            if s_.startswith('?') and s_ not in acc: acc.append(s_)
+        for a in t[3]: sortvars(a, acc)
+    return acc
+
+
 def to_kore(t, sort0):
     if t[0] == 'v': return K.EVar(t[1], K.SortApp(sort0))
     if t[0] == 'dv': return K.DV(K.SortApp(t[1]), K.String(t[2]))
-    return K.App(t[1], tuple(K.SortApp(s) for s in t[2]), tuple(to_kore(a, sort0) for a in t[3]))
+    return K.App(t[1], tuple(_ksort(s) for s in t[2]), tuple(to_kore(a, sort0) for a in t[3]))
 
 
 def to_ref(t, varmap):
@@ -153,7 +173,7 @@ def to_ref(t, varmap):
     if t[0] == 'dv': return R.A(R.A(R.Y('kore_dv'), R.Y('ksort_' + t[1])), R.Y(t[2]))
     head = R.Y('kore_kseq') if t[1] == 'kseq' else R.Y('ksym_' + t[1])
     p = head
-    for s in t[2]: p = R.A(p, R.Y('ksort_' + s))
+    for s in t[2]: p = R.A(p, R.MV(varmap['sort:' + s]) if s.startswith('?') else R.Y('ksort_' + s))
     for a in t[3]: p = R.A(p, to_ref(a, varmap))
     return p
 
@@ -178,7 +198,7 @@ def definition(c):
         r = c['rules'][ri]
         s = K.SortApp(r['sort'])
         pat = K.Rewrites(s, K.And(s, (to_kore(r['lhs'], r['sort']), K.Top(s))), K.And(s, (to_kore(r['rhs'], r['sort']), K.Top(s))))
-        sents.append(K.Axiom((), pat, ()))
+        sents.append(K.Axiom(tuple(K.SortVar(x[1:]) for x in sortvars(r['lhs']) + [y for y in sortvars(r['rhs']) if y not in sortvars(r['lhs'])]), pat, ()))
         ordinal_of[ri] = pos
     return K.Definition((K.Module('M', tuple(sents)),)), ordinal_of
 
@@ -216,6 +236,8 @@ def body(c, stats: Stats):
         rule = sem.get_axiom(ordinal_of[ri])
         vs = tvars(r['lhs']) + [v for v in tvars(r['rhs']) if v not in tvars(r['lhs'])]
         varmap = {v: 1000 + i for i, v in enumerate(vs)}
+        for i_, sv_ in enumerate(sortvars(r['lhs']) + [y for y in sortvars(r['rhs']) if y not in sortvars(r['lhs'])]):
+            varmap['sort:' + sv_] = 2000 + i_
         want = rewrites_ref(r['sort'], to_ref(r['lhs'], varmap), to_ref(r['rhs'], varmap))
         got = R.from_repo(rule.pattern)
         if not Bij().unify(want, got):
